@@ -8,6 +8,8 @@ mod engine;
 mod dw;
 pub use dw::{bucket, client, config, controller, metadata, monitor, rpc};
 mod meta;
+mod sim;
+mod simdrv;
 
 use engine::*;
 
@@ -22,6 +24,7 @@ fn main() {
         usage();
     }
     match args[1].as_str() {
+        "simexec" => std::process::exit(sim::main_simexec()),
         "run" => {
             if args.len() < 3 {
                 usage();
@@ -72,6 +75,8 @@ pub fn replay_any(body: &serde_json::Value) -> Result<Option<String>, String> {
     match body.get("kind").and_then(|k| k.as_str()) {
         Some("meta-seq") => meta::replay_seq(body),
         Some("walkey") => meta::replay_walkey(body),
+        Some("sim-data") => simdrv::replay_data(body),
+        Some("sim-proto") => simdrv::replay_proto(body),
         Some(k) => Err(format!("unknown replay kind {}", k)),
         None => Err("replay without kind".into()),
     }
@@ -151,6 +156,35 @@ fn run_prop(prop: &str, tier: Tier, seed: u64) -> i32 {
             regressions(&ctx);
             meta::c25(&ctx);
             ctx.finish(tier.pick(1000, 20_000))
+        }
+        "C22" | "C23" => {
+            let which: u8 = if prop == "C22" { 22 } else { 23 };
+            let rule22 = "generated cluster runs on a deterministic single-threaded executor (stand-in tokio with a virtual clock; every await on a lock, timer, spawn_blocking, socket or yield is a scheduling point decided by the generated schedule bytes, afterwards by a PRNG seeded from them): 1-3 nodes running the repository's NodeController / Storage / client listener / lease loop (and in a quarter of the cases the Monitor) unmodified on the real walrus-rust engine, rollover threshold 1-4 entries, 1-2 topics, 2-4 lock-step clients with 1-11 PUT/GET operations each against generated nodes; metadata consensus is replaced by a linearisable in-order log whose followers apply at schedule-chosen later steps. After the clients finish the cluster is left to quiesce and one connection drains every topic through a generated node. Oracle: every PUT answered OK is returned by exactly one GET (client GETs + drain), no payload twice, nothing that was never PUT, PUTs answered ERR at most once; for GETs ordered in real time a producer's payloads come in acknowledgement order; the drain's EMPTY is only accepted when everything acknowledged has been returned. Non-trivial = a rollover was applied on some node while a PUT on that topic was in flight, or a topic was rolled over at least twice, or (>= 2 nodes) acknowledged PUTs were read back by client GETs. Two generators: general clusters, and single-node / one-producer-per-topic clusters with pure consumers (the shape in which rollovers are fenced while finding C22-rollover-count-race is open).";
+            let rule23 = "same generated cluster runs as C22; after every scheduler step the byte size of every (topic, segment) log on every node is read through Storage::get_topic_size_blocking and compared with the previous step: a segment's size on node n must not grow after n applied the rollover that seals it, nor while n's applied metadata assigns the segment to another node. Non-trivial = at least one rollover in the metadata log, or at least two nodes with acknowledged PUTs.";
+            let ctx = Ctx::new(
+                prop,
+                tier,
+                seed,
+                "exploration",
+                if which == 22 { rule22 } else { rule23 },
+                &["Raft is replaced by a linearisable in-order metadata log with arbitrary finite apply lag (octopii stand-in); tokio by a deterministic executor: every behaviour it shows is a behaviour real tokio can show, true parallelism is not explored", "bincode stand-in codec"],
+            );
+            regressions(&ctx);
+            simdrv::data_search(&ctx, which, tier.pick(2000, 60_000));
+            ctx.finish(tier.pick(100, 2000))
+        }
+        "C24" => {
+            let ctx = Ctx::new(
+                "C24",
+                tier,
+                seed,
+                "exploration",
+                "generated byte streams of 1-13 frames plus a closing probe PUT, cut into generated chunk sizes and written to a connection accepted by the repository's start_client_listener (single simulated node, stand-in TcpStream = in-memory duplex, generated task schedule): valid REGISTER/PUT/GET/STATE/METRICS frames with payloads containing inner/leading/trailing whitespace, newlines and multi-byte characters, zero-length frames, frames announcing more than 64 KiB whose announced body (containing what looks like further frames) is really sent, invalid UTF-8, unknown verbs, incomplete commands. Oracle: exactly one response per frame, in order; each response has the class of its frame (OK / EMPTY|OK payload / ERR / JSON); every GET returns the oldest unread PUT payload of that topic byte-identically modulo the command line's trailing whitespace. Non-trivial = a malformed frame is followed by at least one valid frame on the same connection.",
+                &["single node, single connection: GET order is FIFO over that connection's own PUTs", "stand-in tokio/octopii as for C22"],
+            );
+            regressions(&ctx);
+            simdrv::proto_search(&ctx, tier.pick(2500, 60_000));
+            ctx.finish(tier.pick(40, 800))
         }
         other => {
             eprintln!("unknown property {}", other);
